@@ -64,6 +64,8 @@ def r_change_guard(rep, prog):
                             has_cls = any(x[0] == "call" and x[1] == TR + "class" for x in T.walk(ct))
                             is_eq = (ct[0] == "bin" and ct[1] == "Eq") or (ct[0] == "call" and ct[1].endswith(("PartialEq>::eq", "PartialEq::eq")))
                             cls = has_cls and is_eq
+        if not cls:
+            cls = lib.option_filter_ok(b, prog, bi, "class", lambda t: t == ("call", TR + "class", (("p", "self"),)))
         rep.check(cls, rule, "change|class-match", "requires class.is_none_or(|k| k == self.class())",
                   "a tree whose class does not match the matcher can be changed", span)
         fr = False
@@ -238,6 +240,8 @@ def r_filter_honoured(rep, prog, rule="R-RESERVE-BEFORE-LOWER"):
                             hit = True
             if c[0] == "discr" and T.canon(T.strip_refs(c[1])) == ("p", "tree") and False:
                 pass
+        if not hit:
+            hit = lib.option_filter_ok(g, prog, bi, "tree", lambda t: t == ("call", "llfree::bitfield::RowId::as_tree", (("call", LT + "row", (("p", "self"),)),)))
         ok = ok and hit
     rep.check(ok, rule, "LocalTree::get|tree-filter", "a reservation is charged only if no tree is named or it reserves the named tree",
               "LocalTree::get hands out a reservation without `tree.is_none_or(|i| self.row().as_tree() == i)`: a targeted "
